@@ -17,6 +17,11 @@ def rot_cases(res, cfgs, prop=None):
 def run(res, only=None):
     cfgs = [c for c in CFGS if not only or c in only]
     rot_cases(res, cfgs)
+    # code -> spec on RANDOM angles (Trace_Rel.tla): from_euler of all 24 variants equals the product of the three elementary rotations in the
+    # order the variant's name spells (elementary rotations checked for their exact 0/1 pattern, equal cosines, opposite sines, right-hand
+    # sign); to_euler rebuilds it; axis-angle constructors and extractions agree with the quaternion-to-matrix polynomial
+    core.record_and_validate(res, "rel", [c for c in cfgs if c != "sse2-rel"], draws=1 if res.tier == "quick" else 40, module="Trace_Rel",
+                             chunks=4 if res.tier == "quick" else 8, expect_kinds=("rel",), ops=["euler", "quat_mat"])
     res.rule = ("exact ring Z[sqrt2,1/2] expectations: from_rotation_x/y/z and from_axis_angle for angles k*45deg (|k|<=9, i.e. beyond "
                 "+-2pi) on the 18 lattice axes (coordinate axes and face diagonals), from_scaled_axis, 2-D from_angle/rotate/to_angle/perp, "
                 "from_euler for all 24 orders x angle triples of the 45-degree grid (all 8^3 in thorough, 1/3 stride in quick; gimbal lock is "
